@@ -18,7 +18,7 @@ META = {
               "(0..8) and as block counts (0..6); base 0..65534 even",
     "outside": ["chains deeper than 20 (additive) / 6 (non-linear): the property's 300/30 are a budget choice away, not a different mechanism",
                 "moving definitions inside '.repeat' or across '.end'"],
-    "structure": "5 definition families x uses in immediate, index, absolute, relative, branch target, .word, .byte, .blkb count, .link",
+    "structure": "13 unit-level shapes of the deferred-value algebra (all coefficients and values unbounded integers); 7 definition families x uses in immediate, index, absolute, relative, branch target, .word, .byte, .blkb count, .link",
     "stubs": [],
 }
 
@@ -94,6 +94,58 @@ def h_perm(params, vals, ctx):
     return True
 
 
+ALGEBRA = {
+    # name: function(env) -> (deferred expression built with pdpy11's own operators, expected integer)
+    "scaled-pending":        lambda e: (e["K1"] * e["x"] + e["C0"], e["K1"] * e["A"] + e["C0"]),
+    "difference-of-pending": lambda e: (e["K1"] * e["x"] - e["K2"] * e["y"] + e["C0"], e["K1"] * e["A"] - e["K2"] * e["B"] + e["C0"]),
+    "alias-of-polynomial":   lambda e: (e["K2"] * e["z"] - e["z"] + e["C0"], (e["K2"] - 1) * (e["K1"] * e["A"] + 5) + e["C0"]),
+    "negated-alias":         lambda e: (100 - e["z"], 100 - (e["K1"] * e["A"] + 5)),
+    "alias-of-alias":        lambda e: (e["K2"] * e["zz"] + e["z"], (e["K2"] + 1) * (e["K1"] * e["A"] + 5) + 7 * e["K2"]),
+    "product-of-pending":    lambda e: ((2 * e["x"]) * e["y"], 2 * e["A"] * e["B"]),
+    "product-of-diff":       lambda e: ((e["x"] - e["y"]) * e["y"], (e["A"] - e["B"]) * e["B"]),
+    "product-with-const":    lambda e: ((e["x"] + e["C0"]) * e["y"], (e["A"] + e["C0"]) * e["B"]),
+    "promise-cancels":       lambda e: (e["K1"] * ((e["P"] + 12) - e["P"]) + e["C0"], 12 * e["K1"] + e["C0"]),
+    "promise-before-after":  lambda e: ((e["late"] - e["early"]) * e["K1"], 6 * e["K1"]),
+    "promise-value":         lambda e: (e["late"] + e["K1"] * e["early"], (e["B"] + 6) + e["K1"] * e["B"]),
+    "neg-neg":               lambda e: (-(-(e["K1"] * e["x"] - e["y"])), e["K1"] * e["A"] - e["B"]),
+    "sum-same-variable":     lambda e: (e["x"] + e["x"] - 2 * e["x"] + e["K1"] * e["x"], e["K1"] * e["A"]),
+}
+
+
+def h_algebra(params, vals, ctx):
+    """The deferred-value algebra itself (LinearPolynomial / Deferred / Promise), driven as a unit: expressions over values
+    that are still pending when the expression is built evaluate to the arithmetic result once everything is known."""
+    from pdpy11.deferred import Deferred, Promise, LinearPolynomial, wait, not_ready
+    from ..symasm import reset_module_state
+    reset_module_state()
+    a, b, k1, k2, c0 = vals["A"], vals["B"], vals["K1"], vals["K2"], vals["C0"]
+    known = {}
+
+    def pending(name):
+        def fn():
+            if name not in known:
+                not_ready()      # what a reference to a not-yet-defined symbol does during an early attempt
+                raise KeyError(name)
+            return known[name]
+        return fn
+
+    x = Deferred(int, pending("x"))         # pending: not constructed through try_compute
+    y = Deferred(int, pending("y"))
+    z = Deferred(int, lambda: k1 * x + 5)          # resolves to a polynomial in x
+    zz = Deferred(int, lambda: z + 7)              # resolves to a polynomial in z
+    P = Promise(int, "LA")
+    early = P + 0 if params.get("early_poly") else P   # written before the promise is settled
+    P.settle(Deferred(int, pending("y")))
+    late = P + 6                                    # written after it was settled
+    env = {"x": x, "y": y, "z": z, "zz": zz, "P": P, "early": early, "late": late, "A": a, "B": b, "K1": k1, "K2": k2, "C0": c0}
+    expr, expected = ALGEBRA[params["shape"]](env)
+    known["x"], known["y"] = a, b                   # everything becomes known only now
+    got = wait(expr)
+    ctx.observe(got)
+    ctx.reach(True)
+    return got == expected
+
+
 def _ob(tag, canonical, variant, vars_, **kw):
     return Ob(oid=tag, harness=H, params={"canonical": canonical, "variant": variant, **kw}, vars={v: "int" for v in vars_}, timeout=300, per_path=90,
               note=variant.replace("\n", " / "))
@@ -141,6 +193,13 @@ def obligations(tier, seed):
                         ("mixed", pend[1:3] + use + pend[:1] + pend[3:]), ("deps-last", pend[3:] + use + pend[1:3] + pend[:1])):
         obs.append(_ob(f"pending-products/{oname}", can, "\n".join(text) + "\n", ["A", "C"], ranges={"A": [-1000, 1000], "C": [-1000, 1000]},
                        expect=None))
+    for shape in ALGEBRA:
+        for early_poly in (False, True):
+            if early_poly and "early" not in ALGEBRA[shape].__code__.co_consts and shape not in ("promise-before-after", "promise-value"):
+                continue
+            obs.append(Ob(oid=f"algebra/{shape}" + ("/early-polynomial" if early_poly else ""), harness="pdpverif.props.c03:h_algebra",
+                          params={"shape": shape, "early_poly": early_poly}, vars={"A": "int", "B": "int", "K1": "int", "K2": "int", "C0": "int"},
+                          timeout=300, per_path=90, note="unit-level: LinearPolynomial/Deferred/Promise algebra over pending values, all integers"))
     # long chains
     for n, kind in ((8, "add"), (20, "add"), (6, "nonlin")):
         defs = chain_defs(n, kind)
